@@ -35,6 +35,7 @@ func main() {
 		genWide(e, *prop, *tier)
 		genScale(e, *prop, *tier)
 		genKeys(e, *prop, *tier)
+		genDtypeSweep(e, *prop)
 		e.close()
 		fmt.Printf("cases=%d\n", e.n)
 	case "replay":
